@@ -30,6 +30,36 @@ def formula_strategy(symbols, max_depth=4, max_terms=4):
     return hs.lists(term, min_size=1, max_size=max_terms)
 
 
+def random_tree(rng, palette, depth=3, max_terms=4):
+    """plain-random formula tree over a small palette of symbols, so that the same element recurs inside and outside groups and at several
+    nesting levels (the shape merge logic stumbles over); same tree shape as formula_strategy"""
+    def sub():
+        k = rng.random()
+        if k < 0.4:
+            return None
+        if k < 0.8:
+            return str(rng.randint(2, 12))
+        if k < 0.9:
+            return "%d.%d" % (rng.randint(0, 9), rng.randint(1, 99))
+        return ".%d" % rng.randint(1, 9)
+
+    def terms(d):
+        out = []
+        for _ in range(rng.randint(1, max_terms)):
+            if d > 0 and rng.random() < 0.4:
+                out.append(("grp", terms(d - 1), sub()))
+            else:
+                out.append(("el", rng.choice(palette), sub()))
+        return out
+    return terms(depth)
+
+
+def random_formula(rng, symbols=None):
+    symbols = symbols or SYMBOLS[:92]
+    palette = rng.sample(list(symbols), rng.randint(1, 4))
+    return render(random_tree(rng, palette, depth=rng.randint(0, 3)))
+
+
 def render(tree):
     out = []
     for t in tree:
